@@ -178,9 +178,11 @@ def judge_lock(ctx, rng, j):
             nf = dict(fields)
             nf[f'sigfield{k}'] = fields[f'sigfield{k}'] + b'\x00'
             variants.append(('covered-field', wit, nf))
-        notperm = [g for g in range(1, 256) if g & ~allowed & 0xff]
-        if notperm:
-            g = rng.choice([x for x in notperm if x != 0xff] or notperm)
+        free = [b for b in range(8) if not (allowed >> b) & 1]
+        if free:
+            # minimal excess: the permitted flag plus exactly one bit the lock
+            # does not permit, rotating over the bits
+            g = f | (1 << free[j % len(free)])
             if g != 0xff:
                 # a *valid* signature over the message selected by a flag the
                 # lock does not permit
